@@ -95,8 +95,8 @@ def run(rep):
                 flag("C08/wrote-into-unnamed-package", "goderive ./%s wrote derived.gen.go into %s" % (p, others),
                      {"cmd": "goderive ./" + p, "files": runs.read_tree(os.path.join(src, p))})
         rep.cov["package_status_alone"] = dict(collections.Counter(status.values()))
-        ok = [p for p in pkgs if status[p] == "ok" and kind_of.get(p) not in ("flow-top", "autoname-group")]
-        rejected = [p for p in pkgs if status[p] == "rejected" and kind_of.get(p) not in ("flow-top", "autoname-group")]
+        ok = [p for p in pkgs if status[p] == "ok" and kind_of.get(p) not in ("flow-top", "flow-mid", "autoname-group")]
+        rejected = [p for p in pkgs if status[p] == "rejected" and kind_of.get(p) not in ("flow-top", "flow-mid", "autoname-group")]
         hung = [p for p in pkgs if status[p] in ("timeout", "crash")]
         if hung:
             rep.notes.append("packages on which goderive hangs or crashes (C09's business, excluded from byte comparison): %s" % hung)
@@ -182,7 +182,13 @@ def run(rep):
                     with open(os.path.join(root, expect[0], DERIVED), "w") as f:
                         f.write("// Code generated by goderive DO NOT EDIT.\n\npackage %s\n\n" % expect[0] +
                                 "".join("// deriveOld%d is left over from an earlier version of the sources.\nfunc deriveOld%d() {}\n\n" % (k, k) for k in range(2000)))
-                r = runs.goderive(binp, os.path.join(root, cwd) if cwd else root, args, timeout=limit)
+                if name == "flow-one-by-one":  # one invocation per package, in the order given
+                    for a in args:
+                        r = runs.goderive(binp, root, [a], timeout=limit)
+                        if r["rc"] != 0 or r["timeout"]:
+                            break
+                else:
+                    r = runs.goderive(binp, os.path.join(root, cwd) if cwd else root, args, timeout=limit)
                 for _ in range({"rerun-over-own-output": 1, "rerun-twice-over-own-output": 2}.get(name, 0)):
                     if r["rc"] == 0 and not r["timeout"]:  # the same invocation again, over the file that is now there
                         r = runs.goderive(binp, os.path.join(root, cwd) if cwd else root, args, timeout=limit)
@@ -260,19 +266,21 @@ def run(rep):
         # named package it imports has its derived.gen.go; every order and spelling of the two arguments
         fb = [p for p in pkgs if kind_of.get(p) == "flow-base"]
         ft = [p for p in pkgs if kind_of.get(p) == "flow-top"]
+        fmid = [p for p in pkgs if kind_of.get(p) == "flow-mid"]  # passes the types on, never an argument
         for t0 in (ft if fb and status.get(fb[0]) == "ok" else []):
             b0 = fb[0]
             fvars = [[x + b0, x + t0] for x in ("./", "ambig/")] + [[x + t0, x + b0] for x in ("./", "ambig/")] + \
                     [["./" + t0, "ambig/" + b0], ["ambig/" + t0, "./" + b0], ["./" + b0, "ambig/" + t0], ["ambig/" + b0, "./" + t0]]
             keep = tuple(q for q in pkgs if q not in (b0, t0) and kind_of.get(q) not in ("assignable-named-unnamed",))
             fjobs = [(("flow-pair", None, a, [b0, t0], ()), i) for a in fvars for i in range(2)]
+            fjobs += [(("flow-one-by-one", None, ["./" + b0, "./" + t0], [b0, t0], ()), 0)]
             fjobs += [(("flow-pair-cwd", t0, ["../" + b0, "."], [b0, t0], ()), 0), (("flow-pair-cwd", b0, ["../" + t0, "."], [b0, t0], ()), 0)]
             fres = runs.par(variant_run, fjobs)
             evaluations += len(fjobs)
             ref = fres[0]  # dependency first, relative paths
             if ref["rc"] != 0:
                 flag("C08/flow-pair-rejected", "goderive %s fails from a clean state: %s" % (" ".join(fvars[0]), ref["out"][-300:]),
-                     {"cmd": "goderive " + " ".join(fvars[0]), "files": {p: runs.read_tree(os.path.join(src, p)) for p in (b0, t0)}})
+                     {"cmd": "goderive " + " ".join(fvars[0]), "files": {p: runs.read_tree(os.path.join(src, p)) for p in [b0, t0] + fmid}})
             for (v, i), r in zip(fjobs, fres):
                 for p in (b0, t0):
                     comparisons += 1
@@ -280,10 +288,10 @@ def run(rep):
                         distinct.add((p, "flow:" + " ".join(v[2])))
                     if r["sha"][p] != ref["sha"][p] or r["rc"] != ref["rc"]:
                         flag("C08/bytes-differ:cross-package-flow" + ("-from-package-dir" if v[0] == "flow-pair-cwd" else ""),
-                             "from a clean state `%sgoderive %s` (exit %s) leaves %s/derived.gen.go %s, `goderive %s` (exit %s) leaves %s" % (
-                                 "cd %s && " % v[1] if v[1] else "", " ".join(v[2]), r["rc"], p, r["sha"][p][:12], " ".join(fvars[0]), ref["rc"], ref["sha"][p][:12]),
+                             "from a clean state `%sgoderive %s`%s (exit %s) leaves %s/derived.gen.go %s, `goderive %s` (exit %s) leaves %s" % (
+                                 "cd %s && " % v[1] if v[1] else "", " ".join(v[2]), " (one invocation per package)" if v[0] == "flow-one-by-one" else "", r["rc"], p, r["sha"][p][:12], " ".join(fvars[0]), ref["rc"], ref["sha"][p][:12]),
                              {"cmd": "goderive " + " ".join(v[2]), "baseline_cmd": "goderive " + " ".join(fvars[0]), "package": p, "stderr": r["out"][-600:],
-                              "files": {q: runs.read_tree(os.path.join(src, q)) for q in (b0, t0)}})
+                              "files": {q: runs.read_tree(os.path.join(src, q)) for q in [b0, t0] + fmid}})
             rep.cov["flow_pair_runs"] = rep.cov.get("flow_pair_runs", 0) + len(fjobs)
 
         # ---- 6. history: the bytes are a function of the CURRENT sources (the package's own and those it imports) and the
